@@ -54,6 +54,25 @@ def variations(ctx, cfgs, n_var):
     return out
 
 
+def crowded_jobs(cfgs):
+    """Deterministic extra jobs: many units in few cells (several units per cell, surplus lists in use) and
+    three composite objects with molecule/atom mode switching (two active leaves of one object at once)."""
+    out = []
+    for c in cfgs:
+        if c.endswith("coulomb_atoms/cell_bounded.ini"):
+            out.append((c, {"RandomInputHandler": {"number_of_root_nodes": 20},
+                            "CuboidPeriodicCells": {"cells_per_side": "5, 2, 2"},
+                            "CoulombCellBounding": {"number_event_handlers": 60},
+                            "CoulombNearby": {"number_event_handlers": 60},
+                            "CoulombSurplus": {"number_event_handlers": 60}}))
+        if c.endswith("dipoles/dipole_motion.ini"):
+            ov = {"RandomInputHandler": {"number_of_root_nodes": 3}}
+            for sec in ("HarmonicLeaf", "CoulombLeaf", "RepulsiveLeaf", "CoulombRoot", "RepulsiveRoot"):
+                ov[sec] = {"number_event_handlers": 12}
+            out.append((c, ov))
+    return out
+
+
 def run_traces(ctx, jobs, max_legs, seeds=(1,)):
     """jobs: list of (config, overrides).  Returns list of traces (dict)."""
     payloads = []
@@ -73,6 +92,7 @@ def run_traces(ctx, jobs, max_legs, seeds=(1,)):
 def standard_jobs(ctx):
     cfgs = shipped_configs(ctx)
     jobs = [(c, {}) for c in cfgs]
+    jobs += crowded_jobs(cfgs)
     jobs += variations(ctx, cfgs, ctx.n(8, 100))
     jobs += generated_jobs(ctx, ctx.n(10, 100))
     return jobs
